@@ -28,12 +28,15 @@ def gen_cases(tier, seed):
     rng = gen.rng_for(seed, ID, tier)
     cs = itertools.count(1)
     nshapes = 10 if tier == "quick" else 80
-    for fam in ("exact", "noisy", "int32", "uint8", "float32", "tucker-sparse", "empty-tail", "shared-factors"):
+    for fam in ("exact", "noisy", "int32", "uint8", "float32", "tucker-sparse", "empty-tail", "shared-factors", "tucker-orth", "scattered"):
         for _ in range(nshapes if fam in ("exact", "noisy") else max(2, nshapes // 3)):
             N = int(rng.integers(2, 5))
             shape = [int(s) for s in rng.integers(2, 8 if N < 4 else 5, size=N)]
-            if fam == "tucker-sparse":
+            if fam in ("tucker-sparse", "tucker-orth"):
                 shape = [int(s) for s in rng.integers(4, 8 if N < 4 else 5, size=N)]
+            if fam == "scattered":
+                N = 3
+                shape = [int(rng.integers(4, 7)), int(rng.integers(3, 5)), int(rng.integers(3, 5))]
             if fam in ("noisy", "int32") and rng.random() < 0.3:
                 # singleton modes (the unfolding of such a mode is a single row; other modes lose nothing)
                 shape[int(rng.integers(0, N))] = 1
@@ -75,6 +78,37 @@ def _data(case):
         H["ktensor"] = Ksh
         H["ttensor"] = Tsh
         H["tensor"] = ttb.tensor(A.copy())
+        return A, H
+    if case["fam"] == "tucker-orth":
+        # a Tucker tensor as hosvd / tucker_als / QR produce it: tall factors with orthonormal columns, a core with a well spread spectrum
+        csz = tuple(int(rng.integers(2, min(s_ - 1, 3) + 1)) for s_ in shape)
+        U = [np.linalg.qr(rng.standard_normal((s_, c_)))[0] for s_, c_ in zip(shape, csz)]
+        cd = rng.standard_normal(csz)
+        for k_, c_ in enumerate(csz):
+            cd = cd * (0.45 ** np.arange(c_)).reshape([-1 if j_ == k_ else 1 for j_ in range(len(csz))])
+        A = refops.ttm(cd, U, list(range(len(shape))))
+        H["ttensor"] = ttb.ttensor(ttb.tensor(cd.copy()), [u.copy() for u in U])
+        H["tensor"] = ttb.tensor(A.copy())
+        return A, H
+    if case["fam"] == "scattered":
+        # very sparse data: no two nonzeros share a mode-0 fibre position (the mode-0 Gram matrix is diagonal), several nonzeros per slice,
+        # and the slices rank differently by sum of magnitudes than by energy
+        groups = [[2.0, 2.0], [3.0], [1.5, 1.5, 1.5], [2.5]] + [[0.7]] * (shape[0] - 4)
+        cols = rng.permutation(shape[1] * shape[2])
+        perm = rng.permutation(shape[0])
+        A = np.zeros(shape)
+        c_ = 0
+        for i_, vals_ in enumerate(groups[: shape[0]]):
+            if i_ >= 4 and rng.random() < 0.5:
+                continue
+            for v_ in vals_:
+                if c_ >= len(cols):
+                    break
+                j_, k_ = divmod(int(cols[c_]), shape[2])
+                A[int(perm[i_]), j_, k_] = v_ * (1.0 + 0.01 * i_) * float(rng.choice([-1.0, 1.0]))
+                c_ += 1
+        H["tensor"] = ttb.tensor(A.copy())
+        H["sptensor"] = gen.mk_sptensor(ttb, A, gen.stored_order(rng, int(np.count_nonzero(A)), "shuffled"))
         return A, H
     if case["fam"] == "tucker-sparse":
         # Tucker tensors with a (really) sparse core and (really) sparse factor matrices next to the same data held with dense parts
